@@ -249,7 +249,9 @@ func podDesc(p *v1.Pod) string {
 func setDesc(s *asv1.StatefulSet) string {
 	spec, _ := json.Marshal(s.Spec)
 	st := s.Status
-	cc := int32(-1)
+	// an unset collision count is a count of zero to every reader (the controller writes 0 with its first status
+	// write and does not consider the difference a reason to write)
+	cc := int32(0)
 	if st.CollisionCount != nil {
 		cc = *st.CollisionCount
 	}
